@@ -2514,7 +2514,7 @@ func (c *streamableClientConn) handleSSE(ctx context.Context, requestSummary str
 	retriesWithoutProgress := 0
 
 	for {
-		lastEventID, reconnectDelay, clientClosed := c.processStream(ctx, requestSummary, resp, forCall)
+		lastEventID, reconnectDelay, clientClosed := c.resumeStream(ctx, requestSummary, resp, forCall, prevLastEventID)
 
 		// If the connection was closed by the client, we're done.
 		if clientClosed {
@@ -2608,6 +2608,15 @@ func (c *streamableClientConn) checkResponse(ctx context.Context, requestSummary
 // indicating if the connection was closed by the client. If resp is nil, it
 // returns "", false.
 func (c *streamableClientConn) processStream(ctx context.Context, requestSummary string, resp *http.Response, forCall *jsonrpc.Request) (lastEventID string, reconnectDelay time.Duration, clientClosed bool) {
+	return c.resumeStream(ctx, requestSummary, resp, forCall, "")
+}
+
+// resumeStream is processStream for a body obtained by resuming the logical
+// stream after the event resumeID ("" for the first body). The cursor carries
+// over: a resumed body that ends before delivering any event leaves the stream
+// resumable from resumeID rather than making it look like it has no event IDs.
+func (c *streamableClientConn) resumeStream(ctx context.Context, requestSummary string, resp *http.Response, forCall *jsonrpc.Request, resumeID string) (lastEventID string, reconnectDelay time.Duration, clientClosed bool) {
+	lastEventID = resumeID
 	defer func() {
 		// Drain any remaining unprocessed body. This allows the connection to be re-used after closing.
 		io.Copy(io.Discard, resp.Body)
